@@ -521,7 +521,7 @@ def dangling_fields(P, R, rule='C14.OWN.2'):
     unit = P.need_fn('conf_read').unit
     n = 0
     for f in P.unit_fns(unit):
-        frees = [s for s in f.calls() if s.ev.get('callee') in ('xfree', 'free') and s.ev['args'] and is_var(s.ev['args'][0]) and s.ev['args'][0].get('sc') == 'local']
+        frees = [s for s in f.calls() if s.ev.get('callee') in ('xfree', 'free', 'fclose', 'closedir', 'close') and s.ev['args'] and is_var(s.ev['args'][0]) and s.ev['args'][0].get('sc') == 'local']
         for v in sorted({s.ev['args'][0]['name'] for s in frees}):
             def fld(e):
                 return isinstance(e, dict) and e.get('k') == 'mem' and root_var(e) is not None and (root_var(e).get('sc') in ('param', 'file_static', 'static_local', 'global') or root_var(e).get('t', '').endswith('*'))
@@ -544,7 +544,7 @@ def dangling_fields(P, R, rule='C14.OWN.2'):
                         if is_var(rhs, v):
                             al2.add(k)
                         return (frozenset(al2), frozenset(set(dang) - {k}))
-                if ev['k'] == 'call' and ev.get('callee') in ('xfree', 'free') and ev['args'] and is_var(ev['args'][0], v):
+                if ev['k'] == 'call' and ev.get('callee') in ('xfree', 'free', 'fclose', 'closedir', 'close') and ev['args'] and is_var(ev['args'][0], v):
                     return (frozenset(), frozenset(set(dang) | set(al)))
                 return st
 
@@ -557,6 +557,9 @@ def dangling_fields(P, R, rule='C14.OWN.2'):
             before, at_exit, sin, bout = f.forward((frozenset(), frozenset()), on_event, on_edge)
             n += 1
             bad = sorted({k for st in at_exit for k in st[1]})
+            # a non-local exit hands the object to the catcher just the same
+            for lj in f.calls('longjmp'):
+                bad = sorted(set(bad) | {k for st in before.get(lj.key, set()) for k in st[1]})
             site = [s for s in frees if s.ev['args'][0]['name'] == v][0]
             R.ob(rule, not bad, site, '%s: when %s is freed no field keeps the same pointer until the function returns%s' % (f.name, v, (' (still in %s)' % ', '.join(bad)) if bad else ''), key='dangling:%s:%s' % (f.name, v))
     R.floor(rule, 3, 'locals released in the configuration unit')
@@ -621,7 +624,7 @@ def error_branch_reads(P, R, rule='C14.NULL.1'):
                         p = g.path_avoiding(None, sets, target=t.bid, from_entry=True)
                         n += 1
                         R.ob(rule, p is None, t, 'error %d is reported using the context field %s (read at %s): %s assigns it before raising the error' % (c, fl, s.loc, g.name), key='errfield:%s:%d:%s' % (fl, c, g.name))
-    R.floor(rule, 3, 'system-error reports name the failing call')
+    R.floor(rule, 1, 'system-error reports name the failing call')
 
 
 def run(P, R, tier):
